@@ -272,6 +272,16 @@ def check(case, ctx):
                 ctx.evals += 1
                 if st != 'ok' or not lib.close(got, 2 * base[k][1], 1e-5):
                     ctx.fail('multiplier', 2 * base[k][1], got, entry=label, spelling=base_sp, monoisotopic=mono)
+        # ... and the composition; asking with a multiplier does not change what the plain spelling means afterwards
+        if base[2][0] == 'ok':
+            st, got = lib.call(p.mod_comp, p.Mod(base_sp, 2))
+            want = {k_: 2 * v for k_, v in base[2][1].items()}
+            if st != 'ok' or {k_: v for k_, v in got.items() if v} != {k_: v for k_, v in want.items() if v}:
+                ctx.fail('multiplier-composition', want, got, entry=label, spelling=base_sp)
+            st, again = lib.call(p.mod_comp, base_sp)
+            ctx.evals += 2
+            if st != 'ok' or again != base[2][1]:
+                ctx.fail('composition-after-multiplied-request', base[2][1], again, entry=label, spelling=base_sp)
         for sp in sps[1:]:
             o = _obs(p, sp)
             ctx.evals += 4
